@@ -608,8 +608,14 @@ def check_op(case, op, r, dref):
             at_ls = a == 0 or text[a - 1] == "\n"
             at_le = b == len(text) or text[b - 1] == "\n"
             if lw or (stored is not None and stored[1] == 1):
-                exp = rem[:-1] if rem.endswith("\n") else rem
-                if at_ls and at_le and stored is not None and stored == (exp, 1) and not (unchanged and exp == ""):
+                # the register holds the removed lines without the newline that terminates the last
+                # of them; a span that reaches the end of the text may instead end with a removed
+                # EMPTY last line (then the final "\n" is kept)
+                exps = [rem[:-1]] if rem.endswith("\n") else [rem]
+                if b == len(text) and rem.endswith("\n"):
+                    exps.append(rem)
+                if (at_ls and at_le and stored is not None and stored[1] == 1 and stored[0] in exps
+                        and not (unchanged and stored[0] == "")):
                     ok = True
                 elif rem == "\n" and at_ls and unchanged:
                     stale = True
